@@ -9,7 +9,10 @@ import (
 	"strings"
 
 	"github.com/modernizing/coca/pkg/application/analysis/javaapp"
+	"github.com/modernizing/coca/pkg/application/api"
 	"github.com/modernizing/coca/pkg/application/bs"
+	"github.com/modernizing/coca/pkg/application/call"
+	"github.com/modernizing/coca/pkg/application/rcall"
 	"github.com/modernizing/coca/pkg/domain/core_domain"
 )
 
@@ -103,7 +106,21 @@ func javaFullMulti(c map[string]json.RawMessage, dir string) (interface{}, error
 		idents := ia.AnalysisFiles(files)
 		fullApp := javaapp.NewJavaFullApp()
 		nodes := fullApp.AnalysisFiles(identifiers, files)
-		out = append(out, map[string]interface{}{"nodes": nodesJ(nodes, strip), "identifiers": nodesJ(idents, strip), "bs": bsRun(dir, run)})
+		r := map[string]interface{}{"nodes": nodesJ(nodes, strip), "identifiers": nodesJ(idents, strip), "bs": bsRun(dir, run), "api": apiRun(dir, run)}
+		// C07: a call graph and a reverse call graph, each generated twice in a row in this process
+		for _, n := range nodes {
+			if len(n.Functions) > 0 {
+				root := n.Package + "." + n.NodeName + "." + n.Functions[0].Name
+				d1 := call.NewCallGraph().Analysis(root, nodes, false)
+				d2 := call.NewCallGraph().Analysis(root, nodes, false)
+				r["callTwice"] = d1 == d2
+				r1 := rcall.NewRCallGraph().Analysis(root, nodes, func(map[string][]string) {})
+				r2 := rcall.NewRCallGraph().Analysis(root, nodes, func(map[string][]string) {})
+				r["rcallTwice"] = r1 == r2
+				break
+			}
+		}
+		out = append(out, r)
 	}
 	idk := []string{}
 	for _, i := range identifiers {
@@ -195,4 +212,77 @@ func bsRun(dir string, run []string) []bsEntry {
 		}
 	}
 	return out
+}
+
+// C07, API scan: the files of one run in that order through the real JavaApiApp; the entries per run position.
+// An entry does not name its file: it is attributed by package + class, which the generated projects keep unique per file.
+func apiRun(dir string, run []string) [][]map[string]string {
+	tmp, err := os.MkdirTemp("", "cvapi")
+	if err != nil {
+		return nil
+	}
+	defer os.RemoveAll(tmp)
+	keys := make([]string, len(run))
+	for i, rel := range run {
+		data, err := os.ReadFile(filepath.Join(dir, rel))
+		if err != nil {
+			return nil
+		}
+		p := filepath.Join(tmp, fmt.Sprintf("o%03d", i), filepath.Base(rel))
+		_ = os.MkdirAll(filepath.Dir(p), 0755)
+		_ = os.WriteFile(p, data, 0644)
+		keys[i] = classKeyOf(string(data))
+	}
+	app := new(api.JavaApiApp)
+	apis := app.AnalysisPath(tmp, nil, map[string]core_domain.CodeDataStruct{}, map[string]string{})
+	out := make([][]map[string]string, len(run))
+	for i := range run {
+		out[i] = []map[string]string{}
+	}
+	// a file that is in the run twice produces its entries twice, in run order
+	per := map[string][]map[string]string{}
+	for _, a := range apis {
+		k := a.PackageName + "." + a.ClassName
+		per[k] = append(per[k], map[string]string{"Uri": a.Uri, "HttpMethod": a.HttpMethod, "MethodName": a.MethodName,
+			"RequestBodyClass": a.RequestBodyClass, "PackageName": a.PackageName, "ClassName": a.ClassName})
+	}
+	count := map[string]int{}
+	for _, k := range keys {
+		count[k]++
+	}
+	seen := map[string]int{}
+	for i, k := range keys {
+		all := per[k]
+		n := count[k]
+		if n == 0 || len(all)%n != 0 {
+			out[i] = all
+			continue
+		}
+		sz := len(all) / n
+		out[i] = all[seen[k]*sz : (seen[k]+1)*sz]
+		seen[k]++
+	}
+	return out
+}
+
+// "package p.q;" ... "class|interface Name": the key an API entry carries for its file
+func classKeyOf(src string) string {
+	pkg, name := "", ""
+	for _, line := range strings.Split(src, "\n") {
+		t := strings.TrimSpace(line)
+		if strings.HasPrefix(t, "package ") && pkg == "" {
+			pkg = strings.TrimSuffix(strings.TrimPrefix(t, "package "), ";")
+		}
+		for _, kw := range []string{"class ", "interface "} {
+			if i := strings.Index(t, kw); i >= 0 && name == "" && !strings.HasPrefix(t, "//") && !strings.HasPrefix(t, "*") && !strings.HasPrefix(t, "import") {
+				rest := t[i+len(kw):]
+				end := strings.IndexAny(rest, " <{")
+				if end < 0 {
+					end = len(rest)
+				}
+				name = rest[:end]
+			}
+		}
+	}
+	return strings.TrimSpace(pkg) + "." + name
 }
